@@ -203,7 +203,7 @@ static void on_signal(int sig)
 }
 
 /* ------------------------------------------------------------------ dispatch */
-static const op_t *tables[] = { ops_basic, ops_mul, ops_div, ops_bit, ops_misc, ops_alias, NULL };
+static const op_t *tables[] = { ops_basic, ops_mul, ops_div, ops_bit, ops_alias, ops_conv, ops_q, NULL };
 
 static op_fn lookup(const char *name)
 {
